@@ -265,7 +265,12 @@ def tf(ctx):
                 probs.append('index <- %s' % nv[roles['i']])
             g = [c for c in s1.pc if isinstance(c, alg.Cond)]
             n_sym = dom.sym(cnt, real=True)
-            if not any((c.rel() in ('!=', '<')) and alg.is_zero(c.a - i) and alg.is_zero(c.b - n_sym) for c in g):
+            def guards(c):
+                # i != n, i < n, and the mirrored spellings n != i, n > i
+                if c.rel() in ('!=', '<') and alg.is_zero(c.a - i) and alg.is_zero(c.b - n_sym):
+                    return True
+                return c.rel() in ('!=', '>') and alg.is_zero(c.b - i) and alg.is_zero(c.a - n_sym)
+            if not any(guards(c) for c in g):
                 probs.append('guard %s, expected i != %s' % (g, cnt))
             if dom.concrete(tx.init[roles['i']]) != 0:
                 probs.append('index starts at %s' % tx.init[roles['i']])
